@@ -14,6 +14,9 @@ C={
 "C09":("model_checking","bounded-exhaustive exploration of every prefix and every 1-/2-cut schedule of every enumerated input; oracles: fresh-run equality, regular language R-pending, last-token bound",
  "For every enumerated input, every prefix and schedule: bytes emitted after each write equal those of a fresh rewriter given the same prefix at once; without capturing handlers the held-back suffix is in R-pending (unfinished tag start through its name, or a contextual look-ahead keyword prefix); with observers at most the last token is held back.",
  "Oracle B (absolute bound) is claimed for the HTML namespace only: inside svg/math the tree-builder simulation legitimately needs whole tags.","DESIGN.md §4 C09"),
+"C03":("model_checking","bounded-exhaustive exploration of tag soup and of a well-nested foreign-content grammar on the real tokenizer (TransformController seam and public handlers), each execution compared with html5ever's tokenizer+tree builder",
+ "For every enumerated document (F<=3 / contexts x F<=2 / G<=6 nodes / 12 element names x every attribute-syntax sequence<=4), every capture set, strict on/off and every single cut: a successful strict run yields exactly html5ever's token list, output == input and equals the non-strict run; a strict failure is a ParsingAmbiguity at a text-mode-switching tag in a select/template-in-select/frameset context.",
+ "html5ever 0.39 is the trusted WHATWG reference. One listed known finding (CDATA directly inside an integration point) with a structural signature.","DESIGN.md §4 C03"),
 "C01":("model_checking","bounded-exhaustive exploration of the real rewriter: all strings over two adversarial alphabets x observer configs x all 1-/2-cut, byte-wise and empty-write schedules; oracle = byte identity",
  "No execution of the real rewriter, over every string of the fragment alphabet (len<=3 quick/<=4 thorough) and byte alphabet (len<=4/<=6), every observer handler set of a 16-entry menu, strict on/off, 4 encodings and every listed schedule, emits anything but the input (or a prefix on a strict-mode ambiguity error).",
  "Coverage statement inside the stated alphabets/bounds only; the round-trip exception is decided by encoding_rs.","DESIGN.md §4 C01"),
